@@ -138,6 +138,14 @@ def sock_cases(tier, rnd):
                        + [["send", S.KINDS[i % 3], "long" if i % 2 else "idem", "inline"]
                           for i in range(more)]
                        + [["adv", 3.0]])
+    # --- a console that is slow to read: the write of one message is suspended (buffers full)
+    #     while other tasks submit theirs; nothing may go out twice, least of all a toggle
+    for pol in ("nonidem", "idem", "conn"):
+        for k in (1, 2, 4):
+            out.append([["q"], ["stall"], ["send", "ac_ctrl", pol, "t1"], ["turns", 2]]
+                       + [["send", S.KINDS[i % 3], ("idem", "nonidem")[i % 2], f"t{i % 3 + 1}"]
+                          for i in range(k)]
+                       + [["turns", 3], ["unstall"], ["adv", 3.0]])
     # --- random
     n = 300 if tier == "quick" else 150000
     for _ in range(n):
@@ -156,8 +164,15 @@ def sock_cases(tier, rnd):
                 ops.append(["net", "refuse", 0.0])
             elif c < 0.9:
                 ops.append([rnd.choice(["rst", "fin"])])
-            else:
+            elif c < 0.96:
                 ops.append(["adv", rnd.choice([0, 0.1, 0.5, 1.0, 2.0, 10.0, 31.0])])
+            else:
+                ops.append(["stall"])
+                for _j in range(rnd.randint(1, 3)):
+                    ops.append(["send", rnd.choice(S.KINDS), rnd.choice(list(pols)),
+                                rnd.choice(["t1", "t2", "t3"])])
+                ops.append(["turns", rnd.randint(1, 3)])
+                ops.append(["unstall"])
         ops.append(["adv", 5.0])
         out.append(ops)
     return out
